@@ -127,6 +127,14 @@ CLAIMED["C03"] = (
     "reader must accept the tree. Concrete replays validate the real bytes with lxml.",
     "DOM passthrough; number-formatting contract for str/format/format_float_positional; decimal precision in {1,4,12}; "
     "xsd-lite covers the constructs the shipped schema uses", "2/C03")
+CLAIMED["C15"] = (
+    "Bounded model checking of writer histories: every sequence of up to 3 (quick) / 4 (thorough) steps over two writers "
+    "(construct A, construct B as XML or protobuf, write_to_file / write_scenario_to_file on either) is executed symbolically "
+    "with both decimal precisions symbolic in 1..12 and every numeric leaf of the scenario symbolic; after each write z3 decides "
+    "that the tree handed to the serialiser equals, leaf by leaf, the tree a fresh identically constructed writer produces. "
+    "The overwrite policy (ALWAYS / SKIP x file exists x format x method x foreign writer in between, second write on the same "
+    "object) is explored exhaustively on real files.",
+    "histories <= 4 steps, two writers; protobuf writes only on a concrete scenario; lxml serialisation outside", "2/C15")
 NOT_YET = {}
 
 props = [json.loads(l) for l in open(os.path.join(ROOT, "properties.jsonl"))]
